@@ -1086,7 +1086,7 @@ where
                 .into_iter()
                 .map(|elem| match elem {
                     Some(ExprOrSpread { spread: None, expr }) => match *expr {
-                        Expr::Ident(ident) if ident.sym == left.sym => {
+                        Expr::Ident(ident) if ident.sym == left.sym && ident.ctxt == left.ctxt => {
                             let name = private_ident!(format!("_{}", ident.sym));
                             self.injecting_consts.push(VarDeclarator {
                                 span: DUMMY_SP,
